@@ -8,7 +8,7 @@ Mode == TLCGet(4)
 TCirc == {1, 2}
 TStr == {1, 2, 3}
 TConn == {"k1", "k2"}
-TPort == {4001, 4002, 4003}
+TPort == {4001, 4002, 4003, 5001, 5002, 5003}
 ConnOrder == <<"k1", "k2">>
 VARIABLES tid, l
 ASSUME TLCSet(2, [t \in 1..Len(Traces) |-> 0])
